@@ -92,7 +92,11 @@ func srvDatagram(v6 bool, k SrvDgKind, serial int) ([]byte, net.Addr) {
 	case SdEmpty:
 		return []byte{}, from
 	case SdNoIP:
+		// "no IP address" has two representations in a net.UDPAddr: a nil slice and an empty one
 		from = &net.UDPAddr{IP: nil, Port: 68}
+		if serial%2 == 1 {
+			from = &net.UDPAddr{IP: net.IP{}, Port: 68}
+		}
 	case SdZeroIP:
 		from = &net.UDPAddr{IP: net.IPv4zero, Port: 1068}
 		if v6 {
@@ -355,7 +359,7 @@ func (s *ServerScenario) check(run *srvRun, ex *vs.Exec) (string, string) {
 		// peer
 		from := run.sender[inv.serial].(*net.UDPAddr)
 		want := from.String()
-		if !s.V6 && (from.IP == nil || from.IP.To4().Equal(net.IPv4zero)) {
+		if !s.V6 && (len(from.IP) == 0 || from.IP.To4().Equal(net.IPv4zero)) { // no address at all, or the unspecified IPv4 address
 			want = (&net.UDPAddr{IP: net.IPv4bcast, Port: from.Port}).String()
 		}
 		if inv.peer != want {
